@@ -222,12 +222,42 @@ func (Engine) Run(c *choice.Src, o engine.Opt) (out engine.Out) {
 	fp = append(fp, fmt.Sprint("mode", mode, "clen", clen))
 
 	newPRG := func() (prg, error) {
-		p, err := random.NewChacha20PRG(seed, cust)
+		// the caller's buffers are reused after the call: the generator must not alias them
+		s2, c2 := append([]byte(nil), seed...), append([]byte(nil), cust...)
+		p, err := random.NewChacha20PRG(s2, c2)
 		if err != nil {
 			return nil, err
 		}
+		for i := range s2 {
+			s2[i] ^= 0xFF
+		}
+		for i := range c2 {
+			c2[i] ^= 0xFF
+		}
 		return p, nil
 	}
+	// restore from a private copy of the state which is scribbled over afterwards; a state
+	// returned by Store() is likewise copied by the harness and the original scribbled over
+	restore := func(state []byte) (prg, error) {
+		st := append([]byte(nil), state...)
+		q, err := random.RestoreChacha20PRG(st)
+		for i := range st {
+			st[i] ^= 0xA5
+		}
+		if err != nil || q == nil {
+			return nil, err
+		}
+		return q, nil
+	}
+	store := func(p prg) []byte {
+		st := p.Store()
+		cp := append([]byte(nil), st...)
+		for i := range st {
+			st[i] = 0xEE
+		}
+		return cp
+	}
+	_, _ = restore, store
 	m := newModel(seed, cust)
 
 	switch mode {
@@ -421,7 +451,7 @@ func (Engine) Run(c *choice.Src, o engine.Opt) (out engine.Out) {
 	}
 
 	resync := func(what string) bool {
-		st := p.Store()
+		st := store(p)
 		ctr, ok := counterOf(st)
 		if !ok {
 			viol("store", "store.len", "Store() returned %d bytes", len(st))
@@ -492,7 +522,7 @@ func (Engine) Run(c *choice.Src, o engine.Opt) (out engine.Out) {
 			ops = append(ops, oo)
 			results = append(results, r1)
 		case 2:
-			st := p.Store()
+			st := store(p)
 			if !bytes.Equal(st, twin.Store()) {
 				viol("twin", "twin.store", "Store() differs from the never-crashed twin after %d ops", len(ops))
 				return out
@@ -575,7 +605,7 @@ func (Engine) Run(c *choice.Src, o engine.Opt) (out engine.Out) {
 				ev("crash: no usable checkpoint, restart from the seed and re-execute %d ops", len(ops))
 				out.Probes["restart_from_seed"]++
 			} else {
-				q, err := random.RestoreChacha20PRG(g.bytes)
+				q, err := restore(g.bytes)
 				if err != nil {
 					viol("restore", "restore.valid.rejected", "%v", err)
 					return out
